@@ -25,6 +25,8 @@ S_MENUS = {
 
 def _rng_for(tag, arr):
     a = REAL_NP.ascontiguousarray(REAL_NP.asarray(arr, dtype=complex))
+    # value-based: -0.0 and 0.0 are the same input
+    a = (a.real + 0.0) + 1j * (a.imag + 0.0)
     h = hashlib.sha256(tag.encode() + repr(a.shape).encode() + a.tobytes()).digest()
     return REAL_NP.random.default_rng(int.from_bytes(h[:8], 'little'))
 
